@@ -52,7 +52,7 @@ RACE_DIRS_C11 = re.compile(r"/(parser|interpreter|scope)/[A-Za-z0-9_]+\.go:\d+|/
 
 SPEC = dict(
     race_dirs=RACE_DIRS_C11,
-    lean_modules=["Ecal.Props.C11"],
+    lean_modules=["Ecal.Props.C11", "Ecal.Props.C11Frame"],
     shards=12,
     budget_s=900,
     extract=extract,
@@ -108,7 +108,12 @@ META = dict(
                 "captured-write list returns exactly outcome(sink, event) — nothing lost, duplicated, mis-attributed (errors_attributed_partial); `event`, "
                 "`this`, `super` and parameters stay invocation-local for the extracted scope set-up order whatever the declaring scope defines "
                 "(stored_names_are_local on a scope model, storesLocal proved sound); locking scope-method calls never fault and never deadlock "
-                "(bookkeeping_never_faults_partial). hW is discharged only as far as the regenerated syntactic facts go; locals created by the statements "
+                "(bookkeeping_never_faults_partial). For a FRAGMENT hW is now a theorem about the evaluator model (Props/C11Frame.lean, over Model/Eval's own "
+                "eval and its setValue / setLocalValue / newChild, with C05's scope lemmas): a sink body that is a `statements` node of `let v` and `v := w` "
+                "statements (plain identifiers, assigned names not defined in the declaring chain), evaluated by Ecal.Ev.eval in the sink scope, writes no "
+                "scope outside the sink's sub-tree (fragment_body_frame, by the sequencing induction eval_statements_frame over eval_let_statement_frame / "
+                "eval_assign_statement_frame), so the declaring chain and every other invocation's scopes are untouched (sink_body_leaves_others_alone) — "
+                "no hypothesis about what evaluation writes. Arithmetic / literals, `if` (allocation), x.* calls and the READ half are NOT done. Otherwise hW is discharged only as far as the regenerated syntactic facts go; locals created by the statements "
                 "are covered by hW, not by an instance theorem. Tie to /repo: facts + stress compared with the model-computed per-event table."),
     level_note=("Trusted: Lean kernel + propext/Classical.choice/Quot.sound; the syntactic extractors (no alias analysis); sequential consistency; "
                 "the evaluator itself is not modelled (no Lean port of statement evaluation inside these models); the engine's error recording is "
